@@ -29,7 +29,8 @@ def gen_cases(tier, seed):
                 for fr in ["0", "1/10", "60"]:
                     for fa in ["0", "1/20", "30"]:
                         yield {"k": "losses", "a": [soc, cap, rel, fr, fa]}
-    yield from runcheck.gen_cases_for(PID, tier, seed, per_strategy_quick=250, per_strategy_thorough=2500)
+    yield from runcheck.gen_cases_for(PID, tier, seed, per_strategy_quick=250, per_strategy_thorough=2500,
+                                  builder_quick=60, builder_thorough=600)
 
 
 def eval_losses(case):
